@@ -15,6 +15,9 @@ C12 line-protocol driver.
       resp  = g:<tree|->:<etag path hex> | w | d:<tree> (/adapt) | r | amb | F<status>:<class>
       ids   = for every distinct "@id" text in the config, sorted: <hex>=<resp of GET /id/<text>, etag path only>
   cas <k> <n>                 k concurrent clients × n conditional increments → `cas <k*n>`
+  pull <tree T> <pulled: tree|!>
+                              load {"admin":{"config":{"load":{"module":"c12pull"}}},"apps":{"c12":T}}; the loader
+                              hands out <pulled>; answer <status of the load>/<config in the end>/<loads>/<autosave file>
   cli <init tree> <file: tree|!|-> <flags>
                               `caddy reload` (the real command function) against the instance running <init>, over its
                               real admin listener; answer <ok|presend|F<status>:<class>>/<config>/<loads caused>
@@ -365,6 +368,26 @@ def handle : List String → String
         | .config => "config" | .id => "id" | .load => "load" | .adapt => "adapt"
         | .redirect => "redirect" | .none => "none")
     | none => "bad-op"
+  | ["pull", sub, pulled] =>
+    -- a config naming a config loader (admin.config.load, no load_delay) is loaded; once it runs, caddy pulls
+    -- <pulled> from the loader and applies it: changeConfig(POST, "/config", pulled, "", false)
+    match parseWholeTree sub, (if pulled == "-" then none else parseBody pulled) with
+    | some t, some pb =>
+      let adminSec : Json := .obj [(str "config", .obj [(str "load", .obj [(str "module", .str (str "c12pull"))])])]
+      let init : Json := .obj [(str "admin", adminSec), (str "apps", .obj [(str "c12", t)])]
+      -- the loader's world: the admin section above is a valid top-level field
+      let acc : Json → Bool := fun d => match d with
+        | .obj kvs => (lookup (str "admin") kvs == none || lookup (str "admin") kvs == some adminSec) &&
+                      probeAccepts (.obj (kvs.filter (fun e => e.1 != str "admin")))
+        | d => probeAccepts d
+      let env : Env := ⟨hashText, acc, wrapAdapter⟩
+      let (s1, r1) := serve env ⟨.post, cfgPrefix, .val init, [], false, .json⟩ initState
+      let s2 := if s1.loads == 1 then (pulledConfig env pb s1).1 else s1
+      let sv := if s2.loads == 2 && cfgOf s2.rawCfg != .null then some (cfgOf s2.rawCfg)
+                else if s1.loads == 1 then some init else none
+      (match r1 with | .okWrite => "200" | .fail f => toString (statusOf f) | _ => "?") ++ "/" ++
+        encTree (cfgOf s2.rawCfg) ++ "/" ++ toString s2.loads ++ "/" ++ (match sv with | some j => encTree j | none => "-")
+    | _, _ => "bad-op"
   | ["cli", init, file, flags] =>
     -- `caddy reload --config <file>.json [--force] [--adapter …] [--address …]` against the running instance
     -- (after loading <init>); flags: f = --force, a = --address given explicitly, w / x = --adapter c12wrap / nosuch
